@@ -99,7 +99,7 @@ SOURCES = (
     # path source, every content has the same file names: files that are listed but cannot be read abort the load
     ("path", "path-unreadable", '{"A", "B"}', '{"pem", "unread-c", "unread-p", "foreign", "big"}', "{}"),
     # path source, a certificate deleted on purpose (As) is a legitimate smaller set; a missing key half is not
-    ("path", "path-shrink", '{"A", "As", "B"}', '{"pem", "nokey", "foreign", "big"}', "{}"),
+    ("path", "path-shrink", '{"A", "As", "B"}', '{"pem", "nokey", "foreign"}', "{}"),
     # http source: broken files, files the server does not have / fails on, and an unavailable listing
     ("http", "http", '{"A", "As", "B"}', '{"pem", "nokey", "file404", "file500"}', '{"list404", "list500", "listgarbage", "down"}'),
 )
